@@ -197,7 +197,7 @@ def _one_run(prop, seed, index, cfg, t0):
             case = (start + (index // 2) * stride) % n
             spec = sweep.spec_for(prop, case)
             spec["sweep_case"] = case
-        elif cfg.get("ext_sweep") and index >= cfg["ext_sweep_from"] and index - cfg["ext_sweep_from"] < len(sweep.ext_cases(prop)):
+        elif cfg.get("ext_sweep") and cfg.get("ext_sweep_from") is not None and index >= cfg["ext_sweep_from"] and index - cfg["ext_sweep_from"] < len(sweep.ext_cases(prop)):
             # thorough tier: dense line-granular sweep after a first stretch of random runs
             case = index - cfg["ext_sweep_from"]
             spec = sweep.ext_spec(prop, case)
